@@ -145,6 +145,11 @@ class EValue(PyEcoreValue):
                               ._set(None, update_opposite=False)
         if value is None:
             return
+        if isinstance(value, EProxy) and not value.resolved:
+            # the other end belongs to a resource that is not loaded (it
+            # records that end itself): resolving the proxy here would load
+            # that resource in the middle of the current operation
+            return
         opposite = value.__getattribute__(opposite_name)
         if eOpposite.many:
             opposite.append(owner, update_opposite=False)
@@ -189,6 +194,9 @@ class ECollection(PyEcoreValue):
                 owner._inverse_rels.add(couple)
             return
 
+        if isinstance(owner, EProxy) and not owner.resolved:
+            # see EValue._set: an unresolved proxy keeps its own end
+            return
         opposite_name = eOpposite._name
         opposite = owner.__getattribute__(opposite_name)  # Force load
         if eOpposite.many:
